@@ -922,7 +922,7 @@ def phase_content_length():
     # body longer than announced: only the announced part counts (here: the complete message, then junk)
     body, dl = simple_body()
     run_case('content-length-exact-then-junk', 0, post(body + b'<junk/>' * 50, cl=str(len(body))), ['ok'], half_close=False, deliver=dl)
-    for val in (2**62, 10**18, 2**63 - 1, 2**63, 2**64, 10**30, 10**100, 2**40 + 1):
+    for val in (2**62, 10**18, 2**63 - 1, 2**63, 2**64, 10**30, 10**100):
         body, dl = simple_body()
         run_case('content-length-huge', val, post(body, cl=str(val)), ['ok', 'http:400|413:ce', 'http:413'], deliver=dl)
 
@@ -1445,11 +1445,20 @@ def phase_queue_full():
         stop_and_check(q)
 
 
+HUNG = []
+
+
 def stop_and_check(lsn):
     srv_threads = [t for t in (getattr(lsn.L, '_http_thread', None), getattr(lsn.L, '_callback_thread', None)) if t is not None]
     if any(not t.is_alive() for t in srv_threads):
         R.violation('listener-thread-died', threads=[t.name for t in srv_threads if not t.is_alive()])
-    lsn.stop()
+    t = threading.Thread(target=lsn.stop, daemon=True)
+    t.start()
+    t.join(15)
+    if t.is_alive():
+        HUNG.append(lsn.port)
+        R.violation('listener-stop-did-not-return', port=lsn.port)
+        return
     try:
         s = socket.create_connection(('127.0.0.1', lsn.port), timeout=2)
         s.close()
@@ -1482,9 +1491,13 @@ def main():
     finally:
         stop_and_check(LSN)
     left = [t.name for t in threading.enumerate() if t is not threading.main_thread()]
-    if left:
+    if left and not HUNG:
         R.violation('threads-left-behind', threads=left)
     R.finish()
+    if left:                # never leave a process behind because of non-daemon listener threads that cannot be stopped
+        sys.stdout.flush()
+        import os
+        os._exit(0)
 
 
 main()
